@@ -23,6 +23,8 @@ def main():
             out[m] = {"applies": False, "error": r.stderr[-300:]}
             continue
         t0 = time.time()
+        evp = os.path.join(VERIF, "evidence", prop + ".json")
+        saved = open(evp).read() if os.path.exists(evp) else None      # evidence must describe runs on /repo itself, not on a seeded change
         try:
             c = subprocess.run([os.path.join(VERIF, "check"), prop, "--tier", "quick"], capture_output=True, text=True, timeout=1800, cwd=VERIF)
             lines = [l for l in c.stdout.splitlines() if l.startswith("VIOLATION")]
@@ -33,6 +35,8 @@ def main():
                       "wall_s": round(time.time() - t0, 1)}
         finally:
             subprocess.run(["git", "-C", REPO, "checkout", "--", "."], check=True)
+            if saved is not None:
+                open(evp, "w").write(saved)
         print(m, json.dumps(out[m])[:400], flush=True)
     subprocess.run([os.path.join(VERIF, "check"), "--setup"], capture_output=True, cwd=VERIF)
     p = os.path.join(VERIF, "seeded", "RESULTS.json")
